@@ -373,14 +373,14 @@ pub fn replay(config: &Value, ops: &[String]) -> Vec<String> {
 
 fn explore_h(ctx: &Ctx, rep: &mut Report, props: &[&'static str]) {
     let thorough = ctx.tier.is_thorough();
-    let d1 = if thorough { 13 } else { 9 };
+    let d1 = if thorough { 14 } else { 10 };
     let m = AdsrM::new(1000.0, vec![0.001, 0.002, 0.003, 0.005], vec![0.0, 0.3, 0.5, 1.0]);
     explore(m, &ExploreCfg { max_depth: Some(d1), state_cap: 80_000_000, threads: ctx.threads, label: format!("gate/tick/set_input histories at 1 kHz, phases of 1-6 ticks, depth {}", d1) }, rep, props);
     let d2 = if thorough { 9 } else { 7 };
     let m = AdsrM::new(100.0, vec![0.001, 0.002, 0.005, 0.03], vec![0.0, 0.5, 1.0]);
     explore(m, &ExploreCfg { max_depth: Some(d2), state_cap: 80_000_000, threads: ctx.threads, label: format!("histories at 100 Hz (phases shorter than one sample), depth {}", d2) }, rep, props);
     // fewer parameter operations, deeper: longer runs of ticks and gate events
-    let d3 = if thorough { 22 } else { 16 };
+    let d3 = if thorough { 26 } else { 18 };
     let m = AdsrM::new(1000.0, vec![0.004], vec![0.4]);
     explore(m, &ExploreCfg { max_depth: Some(d3), state_cap: 80_000_000, threads: ctx.threads, label: format!("gate/tick histories at 1 kHz with one time and one sustain level, depth {}", d3) }, rep, props);
     // out-of-range and non-finite parameter values (they must act as the clamped value: C20; here every other
@@ -735,7 +735,7 @@ pub fn run_config(fs: f32, t: f32, lc: &mut LocalCounts, cap_extra: u64) -> bool
 
 pub fn plane(ctx: &Ctx, rep: &mut Report, cap_extra: u64) {
     let thorough = ctx.tier.is_thorough();
-    let stride: u64 = if thorough { 1 } else { 7 };
+    let stride: u64 = if thorough { 1 } else { 3 };
     let nrates = (192000 - 100) / stride + 1;
     par_ranges(ctx, rep, nrates, 512, |_, lo, hi, lc| {
         for i in lo..hi {
